@@ -4,6 +4,7 @@
 -/
 import Hg.Driver.Wire
 import Hg.Model.Eqv
+import Hg.Model.WF
 
 namespace Hg.Proto
 open Hg Hg.Wire
@@ -212,6 +213,18 @@ def step (pool : Pool) (cmd : Json) : Pool × Json :=
       match (strOf? h1).bind pool.get?, (strOf? h2).bind pool.get?, ratOf? rel, ratOf? tol with
       | some a, some b, some rel, some tol => (pool, .bool (eqv rel tol a b))
       | _, _, _, _ => (pool, err "bad eq")
+    | "$good", [h] =>
+      match (strOf? h).bind pool.get? with
+      | some a => (pool, .bool (good a))
+      | none => (pool, err "no handle")
+    | "$iszero", [h] =>
+      match (strOf? h).bind pool.get? with
+      | some a => (pool, .bool (isZeroTree a))
+      | none => (pool, err "no handle")
+    | "$samebase", [h1, h2] =>
+      match (strOf? h1).bind pool.get?, (strOf? h2).bind pool.get? with
+      | some a, some b => (pool, .bool (sameBase a b))
+      | _, _ => (pool, err "bad samebase")
     | "$drop", [h] =>
       match strOf? h with
       | some h => (pool.filter (·.1 ≠ h), .str "$ok")
